@@ -208,9 +208,10 @@ func mpMakeHeader(kind byte, n uint32, wide bool, extType byte) []byte {
 }
 
 // hostile lengths for length-field edits (2^16 .. 2^32-1 as the design asks, plus off-by-one neighbours)
-// (2^25..2^28 are left out: those allocations succeed under the worker's 16 GiB
-// limit and cost seconds each; 2^24 members = 512 MB is the largest survivable one kept)
-var hostileLens = []uint32{1 << 16, 1<<16 + 1, 1 << 18, 1 << 20, 1<<20 + 7, 1 << 22, 1 << 24, 1<<31 - 1, 1 << 31, 1<<31 + 1, 1<<32 - 2, 1<<32 - 1, 1<<32 - 1}
+// (2^21..2^30 are left out: those allocations succeed under the worker's 16 GiB
+// limit and the runtime zeroes them, which costs up to seconds per case; lengths
+// from 2^31 make the allocation fail at once)
+var hostileLens = []uint32{1 << 16, 1<<16 + 1, 1 << 17, 1 << 18, 1 << 20, 1<<20 + 7, 1<<31 - 1, 1 << 31, 1<<31 + 1, 1<<32 - 2, 1<<32 - 1, 1<<32 - 1}
 
 // ------------------------------------------------------------------ JSON tokenizer (independent of encoding/json)
 
